@@ -202,7 +202,7 @@ func basicChild(arg string) string {
 			t.Op(fmt.Sprintf("par basic g=%d", g), "err")
 			continue
 		}
-		d := wd.Dump(w, probes, true)
+		d := wd.Dump(w, probes, true, wd.TagQueries(fs)...)
 		if g == 1 {
 			for _, o := range d {
 				t.Op("obs basic "+o.Key, o.Val)
@@ -240,7 +240,7 @@ func compactChild(arg string) string {
 		t.Op(fmt.Sprintf("par compact g=%d", g), "err")
 		return t.String()
 	}
-	d := wd.Dump(w, wd.Probes(fs), true)
+	d := wd.Dump(w, wd.Probes(fs), true, wd.TagQueries(fs)...)
 	if g == 1 {
 		for _, o := range d {
 			t.Op("obs compact "+o.Key, o.Val)
